@@ -19,6 +19,7 @@ def run(rep):
     rep.guard(c10.v6, rep, w, 'U7')      # String.find & co: a difference of two lengths is taken only after comparing them
     rep.guard(u5, rep, w)
     rep.guard(u6, rep, w)
+    rep.guard(u8, rep, w)
     import c19
     rep.guard(c19.d1, rep, w)     # number -> string conversion is the model's (shortest round-trip) text
     rep.guard(c19.d2, rep, w)     # string -> number conversion is correctly rounded (str::parse::<f64> on the whole string)
@@ -358,3 +359,26 @@ def u6(rep, w):
     # the Vec caller turns a Slice into a newly allocated vector
     g = w.require_fn('yarel::vm::Vm::vec_get_item', 'C13')
     r.check(any(callee_name(t) in ('yarel::vm::Vm::new_root_obj_vec', 'yarel::memory::Root::<T>::new') for _, t in g.calls()) and any(callee_name(t) == 'yarel::object::ObjVec::with_elements' for _, t in g.calls()), 'vec_get_item allocates a new Vec for a slice', 'vec_get_item no longer allocates the slice result', g.loc())
+
+
+def u8(rep, w, prop='C13'):
+    """the bytes an escape sequence spells (\\x.., \\u...., \\U........) become text through the standard library's UTF-8 validation and
+    through nothing else: a decoder written by hand has to reject overlong forms, surrogates and out-of-range values exactly as
+    std does, and whatever it gets wrong becomes a string the reference model does not contain."""
+    r = rep.rule('U8', 'escape sequences are turned into text by String::from_utf8 / str::from_utf8 (std validation), not by a hand-written decoder', floor=1)
+    n = 0
+    for f in sorted(w.yarel.fns.values(), key=lambda x: x.path):
+        if not f.file.endswith('scanner.rs'):
+            continue
+        hexes = [bi for bi, t in f.calls() if strip_generics(callee_name(t) or '').endswith('::from_str_radix') or strip_generics(callee_name(t) or '').endswith('::to_digit')]
+        if not hexes:
+            continue
+        n += 1
+        names = [strip_generics(callee_name(t) or '') for _, t in f.calls()]
+        std_ok = any(x.endswith(('String::from_utf8', 'str::from_utf8', 'core::str::from_utf8', 'std::str::from_utf8')) for x in names)
+        own = sorted({x.rsplit('::', 2)[-2] + '::' + x.rsplit('::', 1)[-1] for x in names if x.endswith(('char::from_u32', 'from_u32_unchecked', 'char::from_digit', 'from_utf8_unchecked', 'from_utf8_lossy'))})
+        r.check(std_ok and not own, '%s validates the escaped bytes with std\'s from_utf8' % f.path.rsplit('::', 1)[-1],
+                '%s reads hexadecimal escapes but does not hand the bytes to String::from_utf8 / str::from_utf8 (own conversion: %s): byte sequences std rejects (overlong forms) '
+                'are accepted as text' % (f.path, own or 'none recognised'), f.loc())
+    if n == 0:
+        raise Broken(prop, 'anchor', 'no scanner function parses hexadecimal escapes')
